@@ -23,6 +23,9 @@ func c07Replay(class string, raw json.RawMessage) (bool, string) {
 	if strings.HasPrefix(class, "poisoned/") {
 		return poisonReplay("C07", raw)
 	}
+	if strings.HasPrefix(class, "saturated-histories/") {
+		return saturatedReplay("C07", raw)
+	}
 	if strings.HasPrefix(class, "ponderhit/") {
 		var c c07PonderCase
 		if err := json.Unmarshal(raw, &c); err != nil {
@@ -279,6 +282,9 @@ func runC07(r *ev.Run) {
 	searches.Add(pz)
 	r.Set("poisoned_table_searches", pz)
 
+	// very long variations (45-63 moves) at iteration depths up to the maximum
+	searches.Add(deepSweep(r, "C07"))
+
 	// the ponderhit delivered at every poll of its channel (instrumented fault plans on the real search)
 	pRuns, pHits := c07PonderSweep(r)
 	searches.Add(pRuns)
@@ -292,6 +298,6 @@ func runC07(r *ev.Run) {
 	r.Set("searches", searches.Load())
 	r.Set("distinct_outcomes", map[string]int64{"reported_variations": lines.Load(), "variation_moves_replayed": pvMoves.Load(), "one_move_variations_at_depth_ge_2": oneMovePV.Load(), "searches_with_ponder_move": ponders.Load()})
 	r.Set("exhaustive", false)
-	r.Set("rule", "fresh table: every root of the corpus plus shuffle-history roots x depth 1..5(7) x table {32000 B, 1 MiB}, hard-budget sweeps at depth 3 on a third of the roots, a soft node limit after every iteration of the deepest search; poisoned tables: the table entry of the root (18 roots x every from/to pair, and every value of the promotion bits on own pawns) or of a position one move below it (every encoding whose from square holds a man of the side to move) holds an arbitrary move, as a colliding entry would leave it; pondering searches whose ponderhit arrives at every poll of its channel (instrumented fault plans); warmed table: engine-vs-engine games with one persistent instance (every search judged, some ending by abort); oracle: every reported variation replays legally in the reference model from the root, returned move = head of the most recent non-empty variation, ponder legal after it, reported depths strictly increase and node counts never decrease; states = searches, transitions = variation moves replayed; non-trivial = reported variations")
+	r.Set("rule", "fresh table: every root of the corpus plus shuffle-history roots x depth 1..5(7) x table {32000 B, 1 MiB}, hard-budget sweeps at depth 3 on a third of the roots, a soft node limit after every iteration of the deepest search; very deep searches of simple endings (iteration depth up to 63, reported variations of 45-63 moves); poisoned tables: the table entry of the root (18 roots x every from/to pair, and every value of the promotion bits on own pawns) or of a position one move below it (every encoding whose from square holds a man of the side to move) holds an arbitrary move, as a colliding entry would leave it; pondering searches whose ponderhit arrives at every poll of its channel (instrumented fault plans); warmed table: engine-vs-engine games with one persistent instance (every search judged, some ending by abort); oracle: every reported variation replays legally in the reference model from the root, returned move = head of the most recent non-empty variation, ponder legal after it, reported depths strictly increase and node counts never decrease; states = searches, transitions = variation moves replayed; non-trivial = reported variations")
 	r.Assume("the space of table states is sampled by deterministic games, not exhausted; each search is an exhaustive check of all its reported lines")
 }
